@@ -12,16 +12,16 @@
 %t9 = type { %t7*, %t0* }
 %t10 = type { i64, double }
 %t11 = type { %t0*, %t1*, %t2*, %t5*, %t9* }
-%"quoted type" = type { %t11*, %"42"* }
+%"quoted\20type" = type { %t11*, %"42"* }
 %"42" = type { i1 }
-%13 = type { %"quoted type"*, %14* }
+%13 = type { %"quoted\20type"*, %14* }
 %14 = type { %13* }
 
 @g0 = global %t0 zeroinitializer
 @g1 = external global %t6
 @g2 = global %t11* null
 @g3 = global %13* null
-@g4 = global %"quoted type"* null
+@g4 = global %"quoted\20type"* null
 
 define %t10 @f(%t3* %p, %t9* %q) {
 entry:
